@@ -411,6 +411,20 @@ class OutOfScope(Exception):
     pass
 
 
+def ghosts_pick(lst, kind, cp):
+    """the #[ghosts] instruction in effect among (name, dedicated-to, ...) tuples in declaration order: instructions of the
+    conversion's ownership flavour; the first one dedicated to the counterpart, otherwise the first default one"""
+    owned = kind in ('owned_into', 'from_owned', 'owned_into_existing')
+    cands = [g for g in lst if g[0] == 'ghosts' or (g[0] == 'ghosts_owned') == owned]
+    for g in cands:
+        if g[1] is not None and norm_ty(g[1]) == cp:
+            return g
+    for g in cands:
+        if g[1] is None:
+            return g
+    return None
+
+
 def expected_struct_meaning(item, kind, fallible, cp, hint):
     """the designated mapping (README rules).  raises OutOfScope for cells the statement does not settle"""
     own_shape = item.shape
@@ -584,6 +598,47 @@ def actual_struct_meaning(imp, fallible, existing, with_lets=False):
     return None
 
 
+PARENT_CALL_RE = re.compile(r'^\(?&?\(?self\.(\w+)\)*\.(?:try_)?into_existing\((?:&mutobj|other)\)$')
+
+
+def body_effects(imp, fallible):
+    """order-aware reading of an Into-side body that flattens bare #[parent] fields: the assignments to the destination,
+    cut into segments by the parent conversions (a parent may write any destination field, so its position among the
+    assignments matters; the order inside a segment does not).  None when the body is not of that form."""
+    blk = fn_block(imp)
+    if blk is None:
+        return None
+    segs, cur, lets = [], {}, []
+    for st in blk[1:]:
+        if st[0] == 'let':
+            if sval(st[1]).startswith('mutobj:') and len(st) > 2 and sem_text(st[2]) == 'Default::default()':
+                continue
+            lets.append((sval(st[1]), sem_text(st[2]) if len(st) > 2 else ''))
+        elif st[0] == 'stmt' and isinstance(st[1], list) and st[1][0] == 'assign':
+            place = sval(st[1][1])
+            m = re.match(r'^(?:obj|other)\.(.+)$', place)
+            if not m:
+                return None
+            cur[m.group(1)] = sem_text(st[1][2])
+        elif st[0] == 'stmt' and isinstance(st[1], list):
+            e = st[1]
+            if e[0] == 'try' and fallible:
+                e = e[1]
+            m = PARENT_CALL_RE.match(sem_text(e)) if isinstance(e, list) else None
+            if not m:
+                return None
+            segs.append(tuple(sorted(cur.items())))
+            segs.append(('parent', m.group(1)))
+            cur = {}
+        elif st[0] == 'tail':
+            if sem_text(st[1]) not in ('obj', 'Ok(obj)', 'Ok(())'):
+                return None
+        else:
+            return None
+    segs.append(tuple(sorted(cur.items())))
+    return (tuple(lets), tuple(segs))
+
+
 # ---------------------------------------------------------------------------------------------------
 # C02: the designated arms of an enum conversion (README rules)
 # ---------------------------------------------------------------------------------------------------
@@ -663,6 +718,9 @@ def expected_enum_arms(item, kind, fallible, cp):
                 vals.append((fd['own'], subst_text(fd['expr'], b, 'value') if fd['expr'] is not None else b))
             if any(fd['ghost'] for fd in fields) and cshape == 'tuple' and any(not fd['ghost'] and fd['q'] > min(x['q'] for x in fields if x['ghost']) for fd in fields):
                 raise OutOfScope('positional binding after a skipped payload field')
+            vg = ghosts_pick(spec.get('vghosts') or [], kind, cp)
+            if vg is not None:
+                binds.append(vg[2] if cshape == 'named' else 'f%s' % vg[2])     # the counterpart's extra field is bound and dropped
             pat = (cshape if fields else ('unit' if cshape == 'unit' or own_shape == 'unit' else cshape), cname, sorted(binds) if cshape == 'named' else binds)
             if own_shape == 'named':
                 mean = ('named', dict(vals))
@@ -691,6 +749,9 @@ def expected_enum_arms(item, kind, fallible, cp):
                     vals.append((place, val))
                 else:
                     vals.append((None, val))
+            vg = ghosts_pick(spec.get('vghosts') or [], kind, cp)
+            if vg is not None:
+                vals.append((vg[2] if cshape == 'named' else None, nsp(vg[3])))     # ... and takes its declared default
             if cshape == 'named':
                 mean = ('named', dict(vals))
             elif cshape == 'tuple':
@@ -698,6 +759,10 @@ def expected_enum_arms(item, kind, fallible, cp):
             else:
                 mean = ('unit',)
             arms.append((('own', pat), ('build', 'cp', cname, mean)))
+    if is_from:
+        eg = ghosts_pick(item.meta.get('eghosts') or [], kind, cp)
+        for (vname, _pt, dflt) in (eg[2] if eg is not None else []):
+            arms.append((('cp', vname), ('expr', nsp(dflt))))               # ghost variants of the counterpart: their declared expression
     return arms, any_ghost_variant
 
 
